@@ -128,22 +128,6 @@ theorem wtd_summary_of_sequence (D : K) (s0 : WtdSummary K) (l : List (K × K)) 
     WRepr D (wrun D s0 l) (effective l) :=
   wrun_repr D s0 l hf
 
-private theorem wtot_effective (l : List (K × K)) : wtot (effective l) = wtot l := by
-  induction l with
-  | nil => rfl
-  | cons p l ih =>
-    by_cases hp : p.2 = 0
-    · simp [effective, hp] at ih ⊢; exact ih
-    · simp [effective, hp] at ih ⊢; rw [ih]
-
-private theorem wxsum_effective (l : List (K × K)) : wxsum (effective l) = wxsum l := by
-  induction l with
-  | nil => rfl
-  | cons p l ih =>
-    by_cases hp : p.2 = 0
-    · simp [effective, hp] at ih ⊢; exact ih
-    · simp [effective, hp] at ih ⊢; rw [ih]
-
 /-- the reported mean is the exact weighted mean: mean · Σw = Σ w·x (sums over ALL samples given, zero weights included) -/
 theorem wtd_mean_exact (D : K) (s0 : WtdSummary K) (l : List (K × K)) (hf : WFinite D l) :
     cmb_wtdsummary_mean (wrun D s0 l) * wtot l = wxsum l := by
